@@ -46,6 +46,39 @@ func main() {
 	}
 	fams := rs.Families(tier != "thorough")
 	switch id {
+	case "C01-generated-worker":
+		// the generated-code part of C01 (this binary links the generated packages; the run that owns
+		// C01's evidence is cmd/mc, which starts this and merges the result)
+		g := generatedEngine()
+		if g == nil {
+			fmt.Fprintln(os.Stderr, "CHECK-BROKEN: no generated engine linked")
+			os.Exit(2)
+		}
+		r = core.NewRun("C01", tier, "model_checking")
+		every := 3
+		if tier == "thorough" {
+			every = 1
+		}
+		c08.RunRoutes(r, []typed.Engine{g}, fams, every)
+		if err := r.ExportPartial(os.Stdout); err != nil {
+			fmt.Fprintln(os.Stderr, "CHECK-BROKEN:", err)
+			os.Exit(2)
+		}
+		os.Exit(0)
+	case "C01":
+		// replay of a generated-code case of C01
+		if !replay {
+			fmt.Fprintln(os.Stderr, "mctyped C01: replay only (the check itself is cmd/mc C01)")
+			os.Exit(2)
+		}
+		var c c08.Case
+		json.Unmarshal(rf.Case, &c)
+		for _, s := range rs.Families(false) {
+			if s.Name == c.Schema {
+				fs, _ := c08.CheckRoutes(generatedEngine(), s, c)
+				r.Report("routes", c, fs)
+			}
+		}
 	case "C08":
 		if replay {
 			c08.Replay(r, engines(), fams, rf.Case)
